@@ -4,12 +4,15 @@
 // one request (GET or HEAD, END_STREAM set), reads every frame, decodes header blocks with the in-tree hpack decoder
 // and reports the abstract frame list of stream 1.
 //
-// input : [method bufsz hop script]
+// input : [method bufsz hop script] or [method bufsz hop script [w g]]  (w g: the client's initial stream window and the grant
 //
-//	method 0 = GET, 1 = HEAD ; bufsz = handlerChunkWriteSize (read from the implementation through the hook)
-//	hop    = sorted keys of the HopHeaders map (read from the implementation through the hook)
-//	script = list of ops  [1 k v] Header().Set(k,v)   [2 k v] Header().Add(k,v)   [3 code] WriteHeader(code)
-//	                      [4 bytes rep] Write(bytes repeated rep times)            [5] Flush()
+//	           it sends whenever its window reaches 0; every DATA write larger than the window is split by the scheduler)
+//
+//
+//		method 0 = GET, 1 = HEAD ; bufsz = handlerChunkWriteSize (read from the implementation through the hook)
+//		hop    = sorted keys of the HopHeaders map (read from the implementation through the hook)
+//		script = list of ops  [1 k v] Header().Set(k,v)   [2 k v] Header().Add(k,v)   [3 code] WriteHeader(code)
+//		                      [4 bytes rep] Write(bytes repeated rep times)            [5] Flush()
 //
 // output: [frames results]
 //
@@ -79,6 +82,11 @@ func impl(in hv.Val) hv.Val {
 	}
 	open := hv.AsInt(args[0]) >= 2 // the request leaves its side of the stream open (no END_STREAM, no body sent)
 	script := decodeScript(args[3])
+	flowW, flowG := 0, 0 // flow-control script: initial stream window, grant when the window reaches 0 (0 = windows never bind)
+	if len(args) > 4 {
+		fl := hv.AsList(args[4])
+		flowW, flowG = int(hv.AsInt(fl[0])), int(hv.AsInt(fl[1]))
+	}
 
 	var results hv.L
 	closed := make(chan bool, 1)   // server-side stream closure (CloseNotify)
@@ -127,7 +135,8 @@ func impl(in hv.Val) hv.Val {
 			fields = append(fields, hv.L{hv.S(f.Name), hv.S(v)})
 			return nil
 		})
-		var hdrEnd bool
+		var hdrEnd, fragBad bool
+		win := flowW
 		for {
 			f, err := fr.ReadFrame()
 			if err != nil {
@@ -142,16 +151,34 @@ func impl(in hv.Val) hv.Val {
 				fields = hv.L{}
 				hdrEnd = f.StreamEnded()
 				dec.Write(f.HeaderBlockFragment())
+				fragBad = fragCheck(len(f.HeaderBlockFragment()), f.HeadersEnded())
 				if f.HeadersEnded() {
 					frames = append(frames, hv.L{hv.I(1), hv.Bool(hdrEnd), fields})
+					if fragBad {
+						frames = append(frames, hv.L{hv.I(9), hv.I(1)})
+					}
 				}
 			case *bfe_http2.ContinuationFrame:
 				dec.Write(f.HeaderBlockFragment())
+				fragBad = fragCheck(len(f.HeaderBlockFragment()), f.HeadersEnded()) || fragBad
 				if f.HeadersEnded() {
 					frames = append(frames, hv.L{hv.I(1), hv.Bool(hdrEnd), fields})
+					if fragBad {
+						frames = append(frames, hv.L{hv.I(9), hv.I(1)})
+					}
 				}
 			case *bfe_http2.DataFrame:
 				frames = append(frames, hv.L{hv.I(2), hv.Bool(f.StreamEnded()), hv.B(append([]byte{}, f.Data()...))})
+				if flowW > 0 {
+					// the client's flow-control script: grant only when the window is exhausted (the server is blocked then)
+					win -= len(f.Data())
+					if win == 0 && !f.StreamEnded() {
+						var wb bytes.Buffer
+						bfe_http2.NewFramer(&wb, nil).WriteWindowUpdate(1, uint32(flowG))
+						cli.Write(wb.Bytes())
+						win = flowG
+					}
+				}
 			case *bfe_http2.RSTStreamFrame:
 				frames = append(frames, hv.L{hv.I(3), hv.I(int(f.ErrCode))})
 			}
@@ -161,7 +188,14 @@ func impl(in hv.Val) hv.Val {
 	var wbuf bytes.Buffer
 	wbuf.WriteString(bfe_http2.ClientPreface)
 	cfr := bfe_http2.NewFramer(&wbuf, nil)
-	cfr.WriteSettings()
+	// flow-control windows that never bind (1 MiB per stream and for the connection): DATA is then split only at the
+	// maximum frame size, which stays at its default 16384
+	if flowW > 0 {
+		cfr.WriteSettings(bfe_http2.Setting{ID: bfe_http2.SettingInitialWindowSize, Val: uint32(flowW)})
+	} else {
+		cfr.WriteSettings(bfe_http2.Setting{ID: bfe_http2.SettingInitialWindowSize, Val: 1 << 20})
+	}
+	cfr.WriteWindowUpdate(0, 1<<20) // the connection window never binds
 	var hb bytes.Buffer
 	enc := hpack.NewEncoder(&hb)
 	enc.WriteField(hpack.HeaderField{Name: ":method", Value: method})
@@ -200,6 +234,16 @@ func impl(in hv.Val) hv.Val {
 		return hv.L{frames, results, hv.I(0)}
 	}
 	return hv.L{frames, results}
+}
+
+// fragCheck reports a header block fragment that splitHeaderBlock would not produce: every fragment but the last is
+// exactly 16384 bytes, the last one is 1..16384 bytes.  (The HPACK size of a block is not modelled, so the
+// fragmentation is checked here and reported as a pseudo frame [9 1], which the model never produces.)
+func fragCheck(n int, last bool) bool {
+	if last {
+		return n < 1 || n > 16384
+	}
+	return n != 16384
 }
 
 // ---- generator
@@ -303,13 +347,19 @@ func genWrite(r *hv.Rng) hv.Val {
 
 func gen(r *hv.Rng, i int, tier string) (string, hv.Val) {
 	method := 0
-	if r.Chance(1, 6) {
+	switch r.Intn(12) {
+	case 0, 1:
 		method = 1
+	case 2, 3:
+		method = 2 // request side left open: RST_STREAM NO_ERROR after the response
 	}
 	var script hv.L
 	class := "get"
 	if method == 1 {
 		class = "head"
+	}
+	if method == 2 {
+		class = "open"
 	}
 	wr := func(n int) hv.Val { // a Write of n bytes
 		if n < 0 {
@@ -354,6 +404,53 @@ func gen(r *hv.Rng, i int, tier string) (string, hv.Val) {
 			script = append(script, wr([]int{0, 1, bufsz, bufsz + 1}[r.Intn(4)]))
 		}
 		return class + "-bufio-boundary", hv.L{hv.I(method), hv.I(bufsz), hop, script}
+	case 3: // header blocks above 16384 bytes: HEADERS + CONTINUATION (response headers and/or trailers)
+		if !r.Chance(1, 6) { // keep these expensive cases rare (about 1% of the run)
+			return "triv-" + class, hv.L{hv.I(method), hv.I(bufsz), hop, hv.L{}}
+		}
+		bigv := func(n int) hv.Val {
+			b := make([]byte, n)
+			for i := range b {
+				b[i] = byte(r.Range(0x21, 0x7e))
+			}
+			return hv.B(b)
+		}
+		n1 := []int{16300, 16384, 17000, 9000}[r.Intn(4)]
+		script = append(script, hv.L{hv.I(1), hv.S("X-Big"), bigv(n1)})
+		if r.Chance(1, 2) {
+			script = append(script, hv.L{hv.I(2), hv.S("X-Big"), bigv(r.Range(7000, 17000))})
+		}
+		if r.Chance(1, 2) {
+			script = append(script, hv.L{hv.I(1), hv.S("Trailer"), hv.S("X-T")}, wr(r.Range(0, 3)), hv.L{hv.I(1), hv.S("X-T"), bigv(r.Range(16000, 17000))})
+		} else {
+			script = append(script, wr(r.Range(0, 3)))
+		}
+		return class + "-continuation", hv.L{hv.I(method), hv.I(bufsz), hop, script}
+	case 4: // bodies above the maximum frame size: the scheduler splits the DATA write (END_STREAM only on the last chunk)
+		if !r.Chance(1, 6) {
+			return "triv-" + class, hv.L{hv.I(method), hv.I(bufsz), hop, hv.L{}}
+		}
+		if r.Chance(1, 2) {
+			script = append(script, hv.L{hv.I(1), hv.S("Trailer"), hv.S("Foo")}, hv.L{hv.I(1), hv.S("Foo"), hv.S(genValue(r))})
+		}
+		n := []int{16383, 16384, 16385, 32768, 32769, 40000}[r.Intn(6)]
+		script = append(script, wr(r.Range(0, 10)), wr(n))
+		maybeFlush()
+		if r.Chance(1, 3) {
+			script = append(script, wr(16385))
+		}
+		return class + "-maxframe", hv.L{hv.I(method), hv.I(bufsz), hop, script}
+	case 5, 6: // small flow-control windows: the scheduler splits every DATA write; END_STREAM must stay on the last piece
+		w := r.Range(1, 64)
+		g := []int{1, 2, 7, 64, 1000, w}[r.Intn(6)]
+		if r.Chance(1, 3) {
+			script = append(script, hv.L{hv.I(1), hv.S("Trailer"), hv.S("Foo")}, hv.L{hv.I(1), hv.S("Foo"), hv.S(genValue(r))})
+		}
+		for j := r.Range(1, 4); j > 0; j-- {
+			script = append(script, wr([]int{0, 1, w - 1, w, w + 1, 2 * w, r.Range(1, 200)}[r.Intn(7)]))
+			maybeFlush()
+		}
+		return class + "-flow", hv.L{hv.I(method), hv.I(bufsz), hop, script, hv.L{hv.I(w), hv.I(g)}}
 	case 2: // trailers: duplicates, forbidden names, some set, some only promoted, late declarations
 		names := []string{"Foo", "bar", "Zz", "X-Md5", "Content-Length", "trailer", "Foo"}
 		decl := ""
@@ -373,8 +470,16 @@ func gen(r *hv.Rng, i int, tier string) (string, hv.Val) {
 		for j := r.Intn(4); j > 0; j-- {
 			script = append(script, hv.L{hv.I(1 + r.Intn(2)), hv.S(r.Pick(names[:4])), hv.S(genValue(r))})
 		}
+		nPrefix := 0
 		if r.Chance(1, 2) {
-			script = append(script, hv.L{hv.I(1), hv.S("Trailer:" + r.Pick([]string{"aa", "Zz", "late"})), hv.S(genValue(r))})
+			script = append(script, hv.L{hv.I(1), hv.S("Trailer:" + r.Pick([]string{"aa", "late"})), hv.S(genValue(r))})
+			nPrefix = 1
+		}
+		if r.Chance(1, 2) { // two or three prefix keys naming the same trailer: the last one visited by Go's map range wins
+			sp := []string{"Trailer:zz", "Trailer:Zz", "Trailer:ZZ"}
+			for j := r.Range(2, 3-nPrefix); j > 0; j-- { // at most three prefix keys in total (the model enumerates 3! orders)
+				script = append(script, hv.L{hv.I(1), hv.S(sp[j-1]), hv.S(genValue(r))})
+			}
 		}
 		if r.Chance(1, 3) { // declared after the header was sent: ignored
 			script = append(script, hv.L{hv.I(2), hv.S("Trailer"), hv.S("Late")}, hv.L{hv.I(1), hv.S("Late"), hv.S("x")})
@@ -386,12 +491,9 @@ func gen(r *hv.Rng, i int, tier string) (string, hv.Val) {
 		o := genHeaderOp(r, after)
 		k := hv.AsStr(o.(hv.L)[1])
 		if len(k) > 8 && k[:8] == "Trailer:" {
-			// the model excludes two magic-prefix keys naming the same trailer (map iteration order)
-			c := bfe_http.CanonicalHeaderKey(k[8:])
-			for kk := range usedPrefix {
-				if kk != k && bfe_http.CanonicalHeaderKey(kk[8:]) == c {
-					return
-				}
+			// the model enumerates the iteration orders of at most three magic-prefix keys
+			if !usedPrefix[k] && len(usedPrefix) >= 3 {
+				return
 			}
 			usedPrefix[k] = true
 		}
